@@ -28,11 +28,12 @@ RULE = ("argument records for Client()/will_set()/username_pw_set()/connect(), p
         "strings of 65535/65536 bytes in every string position, keepalive 0/1/65535/65536, random subsets of the "
         "properties legal for each packet type packed by the real Properties.pack(), SubscribeOptions with all flag "
         "combinations, subscribe/unsubscribe in every call form, v5 disconnect with/without reason code/properties; "
+        "the repaired families as regressions (256 MB publish, unsubscribe([]), wildcard will topic must raise with nothing written); "
         "clean-flag histories: exhaustive sequences of connect/connect_async/reconnect/CONNACK ok/CONNACK refused/loss "
         "up to a bound plus random longer ones. distinct = (kind, version, remaining-length class, payload type, qos, "
         "flags, property use, outcome); non-trivial = a packet was emitted and decoded, or an unrepresentable input was rejected")
 EXTRACT_TAGS = ["packets"]
-GENERATED_ITEMS = ["_pack_remaining_length"]
+GENERATED_ITEMS = ["_pack_remaining_length", "_send_publish flag byte", "_send_connect flags"]
 ASSUMPTIONS = [
     "str.encode('utf-8') yields well-formed UTF-8 and str(int)/str(float) the decimal text (checked here on the implementation side: decoded text is compared with an independent encoding / numeric value)",
     "an MQTT 5 property block is opaque in this model (Properties.pack() is modelled by C17); the decoder only checks its presence and that its length prefix delimits it",
@@ -44,7 +45,7 @@ ASSUMPTIONS = [
 
 TAG = "packets"
 E_RL_ENC, E_RL_DEC, E_CONNECT, E_PUBLISH, E_PUBHDR, E_ACK, E_PING, E_DISC, E_SUB, E_UNSUB = range(1, 11)
-E_DECODE, E_DECODE_PAD, E_STREAM, E_UTF8, E_CLEAN, E_CLEANFLAG = 11, 12, 13, 14, 15, 16
+E_DECODE, E_DECODE_PAD, E_STREAM, E_UTF8, E_CLEAN, E_CLEANFLAG, E_RL_PACK = 11, 12, 13, 14, 15, 16, 17
 E_EMIT_CONNECT, E_EMIT_PUBLISH, E_EMIT_SUB, E_EMIT_UNSUB, E_EMIT_DISC = 20, 21, 22, 23, 24
 PROTO = {3: mqtt.MQTTv31, 4: mqtt.MQTTv311, 5: mqtt.MQTTv5}
 RL_MAX = 268435455
@@ -680,10 +681,14 @@ def must_reject(a):
             why.append("lone surrogate")
         elif len(enc(t)) > 65535:
             why.append("string over 65535 bytes")
+    if k == "unsubscribe" and a["form"] == "list" and not a["topics"]:
+        why.append("empty unsubscribe list")                       # F-C04c, repaired in d11e023
     if k == "connect":
         if not (0 <= a["keepalive"] <= 65535):
             why.append("keepalive outside 16 bits")
         w = a.get("will")
+        if w and not has_surrogate(w["topic"]) and any(ch in w["topic"] for ch in "+#"):
+            why.append("wildcard in the will topic")               # F-C04d, repaired in 470efe3
         if w:
             if payload_len(w["payload"]) > 65535:
                 why.append("will payload over 65535 bytes")
@@ -726,8 +731,15 @@ def gen_publish_cases(ctx, rng):
                 cases.append(dict(kind="publish", proto=v, bridge=False, topic=topic, payload=gen_payload(rng, n), qos=q,
                                   retain=rng.random() < 0.5, props=props, last_mid=rng.choice([0, 65534, 65535, rng.randrange(65536)]),
                                   target_rl=target))
+    # payload LENGTH on the class boundaries too, for every sized payload type
+    for n in (0, 1, 127, 128, 16383, 16384):
+        for kind in ("str", "bytes", "bytearray"):
+            v = rng.choice((3, 4, 5))
+            sp = {"t": "str", "v": gen_text(rng, n)} if kind == "str" else {"t": kind, "hex": bytes(rng.randrange(256) for _ in range(n)).hex()}
+            cases.append(dict(kind="publish", proto=v, bridge=False, topic=gen_topic(rng), payload=sp, qos=rng.choice((0, 1, 2)),
+                              retain=rng.random() < 0.5, props=None, last_mid=rng.randrange(65536), payload_len_class=n))
     # every payload type, random text, properties
-    for _ in range(ctx.n(260, 3000)):
+    for _ in range(ctx.n(260, 8000)):
         v = rng.choice((3, 4, 5))
         cases.append(dict(kind="publish", proto=v, bridge=rng.random() < 0.2, topic=gen_topic(rng), payload=gen_payload(rng),
                           qos=rng.choice((0, 1, 2)), retain=rng.random() < 0.5,
@@ -749,7 +761,7 @@ def gen_publish_cases(ctx, rng):
         # U+0000 probe (F-C04b)
         cases.append(dict(kind="publish", proto=v, topic="a\x00b", payload={"t": "bytes", "hex": "78"}, qos=0, retain=False, props=None, last_mid=1))
     # _send_publish directly: DUP, arbitrary packet ids (the retransmission path)
-    for _ in range(ctx.n(120, 1500)):
+    for _ in range(ctx.n(120, 4000)):
         v = rng.choice((3, 4, 5))
         q = rng.choice((1, 2, 0))
         cases.append(dict(kind="send_publish", proto=v, topic=gen_topic(rng), payload=gen_payload(rng), qos=q,
@@ -811,7 +823,7 @@ def gen_connect_cases(ctx, rng):
                 b["will"]["payload"] = gen_payload(rng, n)
                 b["target_rl"] = target
                 cases.append(b)
-    for _ in range(ctx.n(200, 2500)):
+    for _ in range(ctx.n(200, 5000)):
         v = rng.choice((3, 4, 5))
         d = base(v, client_id=rng.choice(["", gen_word(rng, 1, 30), gen_word(rng, 1, 30)]), clean_session=rng.random() < 0.7,
                  bridge=rng.random() < 0.3, keepalive=rng.choice([0, 1, 60, 65535, rng.randint(0, 65535)]),
@@ -874,7 +886,7 @@ def gen_sub_cases(ctx, rng):
                 else:
                     cases.append(dict(kind=kind, proto=v, form="list", last_mid=rng.randrange(65536), props=None, target_rl=target,
                                       topics=ts))
-    for _ in range(ctx.n(200, 2500)):
+    for _ in range(ctx.n(200, 5000)):
         v = rng.choice((3, 4, 5))
         n = rng.choice([1, 1, 2, 3, 8])
         form = "list" if n > 1 else rng.choice(["single", "tuple", "list"])
@@ -894,6 +906,9 @@ def gen_disc_cases(ctx, rng):
     cases = []
     for v in (3, 4):
         cases.append(dict(kind="disconnect", proto=v, reason=None, props=None))
+        # reason code / properties handed to a v3 client are ignored: still the empty DISCONNECT
+        cases.append(dict(kind="disconnect", proto=v, reason=4, props=[["ReasonString", {"s": "bye"}]], pass_args=True))
+        cases.append(dict(kind="disconnect", proto=v, reason=None, props=[], pass_args=True))
     for rc in [None] + DISC_CODES:
         for _ in range(2):
             cases.append(dict(kind="disconnect", proto=5, reason=rc, props=gen_props(rng, PacketTypes.DISCONNECT)))
@@ -908,7 +923,8 @@ def feature_key(a, r, exp_rl):
     k = a["kind"]
     base = (k, a["proto"], r["out"], rl_class(exp_rl) if exp_rl is not None else 0)
     if k in ("publish", "send_publish"):
-        return base + (a["payload"]["t"], a["qos"], bool(a["retain"]), bool(a.get("dup")), a.get("props") is not None, a.get("target_rl"))
+        return base + (a["payload"]["t"], a["qos"], bool(a["retain"]), bool(a.get("dup")), a.get("props") is not None, a.get("target_rl"),
+                       a.get("payload_len_class"))
     if k == "connect":
         return base + (bool(a.get("will")), a.get("username") is not None, a.get("password") is not None, a.get("bridge"),
                        a.get("clean_start"), a["clean_session"], a.get("props") is not None, a["keepalive"] in (0, 1, 65535),
@@ -1168,22 +1184,27 @@ def run_rl(ctx, out):
         vals.add(rng.randrange(0, 128 ** rng.choice([1, 2, 3, 4, 4, 5])))
     vals = sorted(vals)
     c = impl.make_client()
-    got = [bytes(c._pack_remaining_length(bytearray(), n)) for n in vals]
-    mod = model.run_batch(TAG, E_RL_ENC, [[n] for n in vals])
-    dec = model.run_batch(TAG, E_RL_DEC, [list(g) + [7, 7] for g in got])
+    got = []
+    for n in vals:
+        try:
+            got.append(bytes(c._pack_remaining_length(bytearray(b"\x30"), n))[1:])
+        except ValueError:
+            got.append(None)
+    mod = model.run_batch(TAG, E_RL_PACK, [[n] for n in vals])
+    dec = model.run_batch(TAG, E_RL_DEC, [list(g) + [7, 7] if g is not None else [] for g in got])
     for n, g, m, d in zip(vals, got, mod, dec):
         out.cases += 1
         out.validated += 1
         out.stat("rl_function")
-        out.seen(("rl", n if n < 300 else rl_class(n), len(g)), nontrivial=True)
-        if list(g) != m:
-            out.disagreements.append({"case": {"kind": "rl", "n": n}, "impl": g.hex(), "model": m})
+        out.seen(("rl", n if n < 300 else rl_class(n), None if g is None else len(g)), nontrivial=True)
+        if res_of(m) != (("ok", g) if g is not None else ("raise", 1)):
+            out.disagreements.append({"case": {"kind": "rl", "n": n}, "impl": None if g is None else g.hex(), "model": m})
         if n <= RL_MAX:
-            if d != [1, n, len(g)] or len(g) != rl_class(n) or g[-1] & 0x80 or any(not b & 0x80 for b in g[:-1]):
-                out.violations.append({"case": {"kind": "rl", "n": n}, "what": f"remaining length {n} encoded as {g.hex()} (spec decoder: {d})",
+            if g is None or d != [1, n, len(g)] or len(g) != rl_class(n) or g[-1] & 0x80 or any(not b & 0x80 for b in g[:-1]):
+                out.violations.append({"case": {"kind": "rl", "n": n}, "what": f"remaining length {n} encoded as {None if g is None else g.hex()} (spec decoder: {d})",
                                        "signature": "rl-not-minimal-or-wrong"})
-        elif d != [0]:
-            out.disagreements.append({"case": {"kind": "rl", "n": n}, "what": "spec decoder accepted an over-long length", "model": d})
+        elif g is not None:
+            out.violations.append({"case": {"kind": "rl", "n": n}, "what": f"_pack_remaining_length({n}) did not raise: {g.hex()}", "signature": SIG_OVER})
 
 
 def run_utf8(ctx, out):
@@ -1292,11 +1313,11 @@ def run_clean(ctx, out):
     jobs = []
     for v, cls in ((5, True), (4, True), (4, False), (3, False)):
         alpha = [0, 1, 2, 3, 4, 5, 6, 9] if v == 5 else [0, 3, 4, 5, 9, 1]
-        L = ctx.n(4, 5) if v == 5 else ctx.n(4, 5)
+        L = ctx.n(4, 6) if v == 5 else ctx.n(5, 6)
         for seq in clean_sequences(alpha, L, v == 5):
             jobs.append((v, cls, seq))
     out.exhaustive = True
-    for _ in range(ctx.n(150, 2000)):
+    for _ in range(ctx.n(150, 10000)):
         v, cls = rng.choice([(5, True), (5, True), (4, True), (4, False), (3, True)])
         seq, live, host = [], False, False
         for _ in range(rng.randint(5, 25)):
@@ -1418,12 +1439,17 @@ def overflow_subscribe():
 
 
 def overflow_violation(d, case):
+    """F-C04a was repaired (4b93c7d): the call has to raise and nothing may be written"""
     head = bytes.fromhex(d["head"])
-    if d.get("written", 0) and len(head) >= 6 and all(b & 0x80 for b in head[1:5]):
-        o = model.run_one(TAG, E_RL_DEC, list(head[1:8]))
-        n = vbi_dec(head[1:])[0]
-        return {"case": case, "what": f"remaining length {n} > 268435455 written in 5 length bytes (head {head[:9].hex()}, {d['written']} bytes on the wire); "
-                f"spec rl_decode: {o}", "signature": SIG_OVER}
+    if d.get("written", 0):
+        if len(head) >= 6 and all(b & 0x80 for b in head[1:5]):
+            n = vbi_dec(head[1:])[0]
+            o = model.run_one(TAG, E_RL_DEC, list(head[1:8]))
+            return {"case": case, "what": f"remaining length {n} > 268435455 written in 5 length bytes (head {head[:9].hex()}, {d['written']} bytes on the wire); "
+                    f"spec rl_decode: {o}", "signature": SIG_OVER}
+        return {"case": case, "what": f"oversized packet not rejected: {d}", "signature": SIG_OVER}
+    if "raised" not in d:
+        return {"case": case, "what": f"oversized packet neither rejected nor written: {d}", "signature": SIG_OVER}
     return None
 
 
@@ -1431,23 +1457,31 @@ def run_overflow(ctx, out):
     d = overflow_publish(4)
     out.cases += 1
     out.stat("overflow_probe")
-    out.seen(("overflow", "publish"))
+    out.seen(("overflow", "publish", d.get("raised")))
     v = overflow_violation(d, {"kind": "overflow_publish", "proto": 4, "topic": "t", "payload_len": RL_MAX})
     if v:
         out.violations.append(v)
-    # the model says the same (header-only, lengths as parameters)
+    else:
+        out.stat("rejected_as_required")
+    # the model says the same (header-only entry, lengths as parameters): it raises too
     h = res_of(model.run_one(TAG, E_PUBHDR, [4, 0, 0, 0, 1] + lp(b"t") + lp(b"\x00") + [RL_MAX]))
     out.validated += 1
-    if h[0] != "ok" or h[1].hex() != d["head"][:len(h[1]) * 2]:
-        out.disagreements.append({"case": {"kind": "overflow_publish"}, "what": "header of the 256 MB PUBLISH differs from the model",
+    if (h[0] == "raise") != ("raised" in d):
+        out.disagreements.append({"case": {"kind": "overflow_publish"}, "what": "256 MB PUBLISH: model and implementation disagree on rejection",
                                   "impl": d, "model": h[1].hex() if h[0] == "ok" else h})
+    # one byte less is the largest legal packet of this shape... (thorough: really sent)
+    h = res_of(model.run_one(TAG, E_PUBHDR, [4, 0, 0, 0, 1] + lp(b"t") + lp(b"\x00") + [RL_MAX - 3]))
+    if h != ("ok", bytes.fromhex("30ffffff7f000174")):
+        out.disagreements.append({"case": {"kind": "max_legal_publish"}, "what": "model header for remaining length 268435455", "model": h})
     if not ctx.quick:
         d2 = overflow_subscribe()
         out.cases += 1
-        out.seen(("overflow", "subscribe"))
+        out.seen(("overflow", "subscribe", d2.get("raised")))
         v = overflow_violation(d2, {"kind": "overflow_subscribe", "filters": 4200, "filter_len": 65006})
         if v:
             out.violations.append(v)
+        else:
+            out.stat("rejected_as_required")
         # the largest legal PUBLISH: remaining length exactly 268435455 must be a 4-byte length
         c, s = connected(4)
         sink = Sink()
@@ -1475,8 +1509,25 @@ def run_observations(ctx, out):
 
 
 # ------------------------------------------------------------------------------------------ entry points
+def run_corpus(ctx, out):
+    """stored witnesses first (the cheap ones; the 256 MB ones are run_overflow's)"""
+    import glob, json, os
+    d = os.path.join(os.path.dirname(os.path.dirname(os.path.abspath(__file__))), "corpus", "C04")
+    cases = []
+    for f in sorted(glob.glob(os.path.join(d, "*.json"))):
+        try:
+            c = json.load(open(f)).get("case", {})
+        except Exception:
+            continue
+        if c.get("kind") in IMPL:
+            cases.append(c)
+    out.stat("corpus_cases", len(cases))
+    run_api_cases(cases, out)
+
+
 def run(ctx, out):
     rng = ctx.rng
+    run_corpus(ctx, out)
     run_rl(ctx, out)
     run_utf8(ctx, out)
     cases = gen_publish_cases(ctx, rng) + gen_connect_cases(ctx, rng) + gen_sub_cases(ctx, rng) + gen_disc_cases(ctx, rng)
@@ -1519,8 +1570,11 @@ def replay(payload):
         return bad is None, {"connects": ev, "problem": bad}
     if k == "rl":
         c = impl.make_client()
-        g = bytes(c._pack_remaining_length(bytearray(), case["n"]))
-        ok = case["n"] > RL_MAX or (len(g) == rl_class(case["n"]) and vbi_dec(g)[0] == case["n"])
+        try:
+            g = bytes(c._pack_remaining_length(bytearray(), case["n"]))
+        except ValueError:
+            return case["n"] > RL_MAX, {"raised": "ValueError"}
+        ok = case["n"] <= RL_MAX and len(g) == rl_class(case["n"]) and vbi_dec(g)[0] == case["n"]
         return ok, {"bytes": g.hex()}
     if k == "session":
         return True, {"note": "session scripts are regenerated from the seed; nothing to replay"}
@@ -1528,20 +1582,9 @@ def replay(payload):
 
 
 def finding_still_fails(f):
-    sig = f["sig"]
-    if sig == SIG_OVER:
-        d = overflow_publish(4)
-        head = bytes.fromhex(d["head"])
-        return bool(d.get("written")) and len(head) >= 6 and all(b & 0x80 for b in head[1:5]), d
-    if sig == SIG_NUL:
+    """only F-C04b is open; F-C04a/c/d are `fixed:` lines (their witnesses are regression replays in corpus/C04)"""
+    if f["sig"] == SIG_NUL:
         r = impl_publish(dict(kind="publish", proto=4, topic="a\x00b", payload={"t": "bytes", "hex": "78"}, qos=0, retain=False,
                               props=None, last_mid=0))
         return r["out"] == "ok" and b"a\x00b" in r["wire"], {"wire": r["wire"].hex()}
-    if sig == SIG_UNSUB:
-        r = impl_unsubscribe(dict(kind="unsubscribe", proto=4, form="list", topics=[], props=None, last_mid=0))
-        return r["out"] == "ok" and r["wire"] == bytes.fromhex("a2020001"), {"wire": r["wire"].hex()}
-    if sig == SIG_WILLWILD:
-        r = impl_connect(dict(kind="connect", proto=4, clean_session=True, client_id="c", keepalive=60, clean_start="first",
-                              will=dict(topic="a/#", payload={"t": "none"}, qos=0, retain=False, props=None)))
-        return r["out"] == "ok" and b"a/#" in r["wire"], {"wire": r["wire"].hex()}
     return False, "unknown signature"
